@@ -348,9 +348,14 @@ Definition norm_ops (ops : list op) : list op := map (fun o => (norm_kind (fst o
 
 (* the record-level composition used by the correspondence check:
    writer features -> stored features -> (CIGAR, bases) *)
+(* Record::try_from_alignment_record: missing quality scores (QUAL `*`) are stored as 0xff for
+   every base *)
+Definition writer_quals (seq quals : list N) : list N :=
+  match quals with [] => repeat 255 (length seq) | _ => quals end.
+
 Definition roundtrip (sm : smatrix) (refseq seq quals : list N) (ops : list op) (start : N)
   : option (list op * list N) :=
-  match cigar_to_features true refseq seq quals ops start with
+  match cigar_to_features true refseq seq (writer_quals seq quals) ops start with
   | None => None
   | Some ws =>
       match encode_features sm ws with
